@@ -86,7 +86,7 @@ def check_decl(dc, st, tier, only=None):
     if only is not None:
         check_input(dc, st, only['raw'])
         return
-    budget = 800 if tier == 'quick' else 4000
+    budget = ea.budget_for(dc, tier)
     for raw, r in ea.inputs_for(dc, budget, ext=True if dc.spec.get('tag') else None):
         check_input(dc, st, raw, r)
 
